@@ -63,7 +63,8 @@ def context(kind, opts, ir, entry_diff=None, exc=None):
 
 @findings.matcher("ir_cond")
 def _ir_cond(failure, fd):
-    if failure.get("rt_kind") not in fd.get("kinds", ()):
+    ks = failure.get("rt_kinds") or {failure.get("rt_kind")}
+    if not (set(fd.get("kinds", ())) & set(ks)):
         return False
     ctx = failure.get("_ctx")
     if ctx is None:
